@@ -248,7 +248,10 @@ static Rsp c18_run_raw(const uint8_t *req, uint32_t n) {
 static Rsp c18_run(Buf *b) { b_put32(b, 2, (uint32_t)b->n); return c18_run_raw(b->p, (uint32_t)b->n); }
 
 static uint32_t c18_interesting_u32(void) {
-    switch (rnd(14)) {
+    switch (rnd(15)) {
+    case 13: { /* a count whose product with an element size wraps around 32 bits to (almost) nothing */
+        static const uint32_t K[] = {2, 4, 8, 12, 16, 20, 24, 32, 36, 40, 48, 64}; uint32_t k = K[rnd(12)];
+        return (uint32_t)((0x100000000ULL + k - 1) / k) + rnd(3); }
     case 0: return 0;
     case 1: return 1;
     case 2: return 0xFFFFFFFFu;
